@@ -559,3 +559,36 @@ func sanitize(s string) string {
 		return r
 	}, s)
 }
+
+// WithTimeout runs f in a goroutine and waits at most sec seconds.  It returns
+// false when f did not finish (the goroutine is leaked; the caller must treat
+// the process as poisoned).
+func WithTimeout(sec int, f func()) bool {
+	done := make(chan any, 1)
+	go func() {
+		defer func() { done <- recover() }()
+		f()
+	}()
+	select {
+	case r := <-done:
+		if r != nil {
+			panic(r)
+		}
+		return true
+	case <-time.After(time.Duration(sec) * time.Second):
+		return false
+	}
+}
+
+// FuzzReport writes the failing case of a native fuzz target as a replay file
+// (fuzz workers are separate processes; the driver collects the files).
+func FuzzReport[C any](p *Prop[C], c C, out Outcome) {
+	dir := os.Getenv("VERIF_FUZZ_OUT")
+	if dir == "" {
+		return
+	}
+	_ = os.MkdirAll(dir, 0o755)
+	b, _ := json.Marshal(c)
+	doc, _ := json.MarshalIndent(replayDoc{Property: p.ID, Check: p.Name, Msg: out.Violation, Case: b}, "", " ")
+	_ = os.WriteFile(filepath.Join(dir, fmt.Sprintf("%s-%s-fuzz-%016x.json", p.ID, p.Name, hashKey(string(b)))), doc, 0o644)
+}
